@@ -211,3 +211,5 @@ def check(ctx):
     # dependency: an io timeout result that was injected is consumed by the woken front-end before it returns (rules owned by C15 / C17)
     ctx.import_rules("C15", r"^consume-after:")
     ctx.import_rules("C17", r"^done/result-after-resume")
+    shared.io_timeout_direction_rules(ctx)
+    ctx.import_rules("C17", r"^fwd/|^del-io-timer/|^co-io-result/")
